@@ -63,13 +63,22 @@ class Text:
 
 
 class Grid:
-    def __init__(self, name, slots):
+    def __init__(self, name, slots, free=()):
+        """free: (name, menu) slots that are always fully enumerated (option vectors); they do
+        not count as deviations."""
         self.name = name
         self.slots = slots
         self.names = [n for n, _ in slots]
+        self.free = list(free)
+        self.free_count = 1
+        for _, m in self.free:
+            self.free_count *= len(m)
 
     def default_case(self):
-        return {n: (m.default if isinstance(m, Text) else m[0]) for n, m in self.slots}
+        c = {n: (m.default if isinstance(m, Text) else m[0]) for n, m in self.slots}
+        for n, m in self.free:
+            c[n] = m[0]
+        return c
 
     def _nd(self, i):
         m = self.slots[i][1]
@@ -117,9 +126,23 @@ class Grid:
                 for i in sub:
                     size *= self._ndcount(i)
                 total += size
-        return total
+        return total * self.free_count
 
     def cases(self, task):
+        if not self.free:
+            for c in self._cases(task):
+                yield c
+            return
+        fnames = [n for n, _ in self.free]
+        combos = list(itertools.product(*[m for _, m in self.free]))
+        for c in self._cases(task):
+            for combo in combos:
+                c2 = dict(c)
+                for n, v in zip(fnames, combo):
+                    c2[n] = v
+                yield c2
+
+    def _cases(self, task):
         sub, big, p, parts = task
         base = self.default_case()
         if not sub:
@@ -160,7 +183,7 @@ class Grid:
     def simplify(self, case):
         """One-step simplifications of a case (ordered): reset a slot, delete a token."""
         out = []
-        for n, m in self.slots:
+        for n, m in self.slots + self.free:
             v = case.get(n)
             dflt = m.default if isinstance(m, Text) else m[0]
             if v != dflt:
@@ -174,6 +197,13 @@ class Grid:
                     for i in range(len(v)):
                         c = dict(case)
                         c[n] = v[:i] + v[i + 1 :]
+                        out.append(c)
+                # replace a token by the simplest token of the alphabet
+                rep = m.tokens[0]
+                for i in range(len(v)):
+                    if v[i] != rep:
+                        c = dict(case)
+                        c[n] = v[:i] + [rep] + v[i + 1 :]
                         out.append(c)
         return out
 
